@@ -3,7 +3,8 @@
 //! re-exported unchanged; the ~20 functions signal-hook calls are replaced by a
 //! small nondeterministic kernel / descriptor model (`model`), and the scheduler
 //! shim (`vshim`) lives here because both repo crates already depend on `libc`.
-#![feature(coerce_unsized, unsize)]
+#![feature(coerce_unsized, unsize, specialization)]
+#![allow(incomplete_features)]
 #![allow(non_camel_case_types, non_upper_case_globals, dead_code, static_mut_refs, unused_unsafe)]
 
 pub use real_libc::*;
